@@ -404,10 +404,7 @@ class SymReal(object):
     def __repr__(self):
         if self.c is not None:
             return "S(%s)" % (self.c,)
-        s = str(self.t)
-        if len(s) > 40:
-            s = s[:37].replace("\n", " ") + "..."
-        return "S<%s>" % s
+        return "S<sym>"      # never pretty-print terms: emd formats values into log messages on every call
 
     __str__ = __repr__
 
@@ -600,8 +597,7 @@ class SymBool(object):
         return int(bool(self))
 
     def __repr__(self):
-        s = str(self.t)
-        return "B<%s>" % (s if len(s) < 40 else s[:37] + "...")
+        return "B<sym>"
 
     def __format__(self, spec):
         return repr(self)
